@@ -424,7 +424,7 @@ Section Steps.
     intros H HL Hsrc Ht Hne Hh.
     destruct H as [Hp [Hn [Hf Hr]]]. assert (H : eqv m s1 s2) by (split; [exact Hp | split; [exact Hn | split; [exact Hf | exact Hr]]]).
     destruct (eqv_fields m s1 s2 H) as [Hhist _].
-    unfold exec_external. rewrite Hh. rewrite !(exit_set_h_plain m _ _ _ tgt Hh).
+    unfold exec_external. rewrite Hh. rewrite !(ext_exit_set_nonroot m _ _ _ tgt Hne), (ext_path_nonroot m tgt _ Hne). rewrite !(exit_set_h_plain m _ _ _ tgt Hh).
     set (d := find_domain m (t_src t) tgt).
     assert (Hxs : sort_by (lt_depth_id m) (exit_set m (s_cfg s1) d tgt) = sort_by (lt_depth_id m) (exit_set m (s_cfg s2) d tgt))
       by (apply (exit_order_independent m Hids (s_cfg s1) (s_cfg s2) Hf Hn Hp)).
